@@ -319,6 +319,7 @@ def judge_c10(spec, gs, tbs, inputs, diags, dumps, maps, tdiffs, byk, jobs, info
             d = max(inputs[gi], key=lambda d: d.count(b'\n'))
             out['samples'].append({'grammar': g.text(), 'input': d.decode('latin-1'), 'expected_positions': model.positions(model.expect(g, tb, d).events)[:8]})
 
+D17_KEY = 'site:value_stack@growth-copies-values-with-throwing-move'
 _ARGID = re.compile(r'v(-?\d+)[,&]')
 def judge_c14(spec, gs, tbs, inputs, diags, dumps, maps, tdiffs, byk, jobs, info, out):
     C = out['counts']
@@ -349,7 +350,12 @@ def judge_c14(spec, gs, tbs, inputs, diags, dumps, maps, tdiffs, byk, jobs, info
             if '&' in r.events: probs.append('a value was handed to a functor as a non-movable reference')
             if len(set(ids)) != len(ids): probs.append('a value was consumed by two functor calls')
             if probs:
-                viol(out, g, data, r.mode, '; '.join(probs) + ' (log %s)' % r.events[:300], observed=r.events)
+                # recorded finding D17: std::vector growth of the run-time value stack copies the pending values when a value type has a
+                # potentially throwing move constructor; applies only to such grammars, to parses that need more than the reserved 1024 stack
+                # entries, and only when copies are the sole symptom
+                d17 = (len(probs) == 1 and probs[0].endswith('copies of semantic values made by the library') and 'X' in g.vtypes and r.mode == 0
+                       and model.expect(g, tb, data).res.maxdepth > 1024)
+                viol(out, g, data, r.mode, '; '.join(probs) + ' (log %s)' % r.events[:300], observed=r.events, extra_keys=([D17_KEY] if d17 else []))
         if len(out['samples']) < 2 and inputs[gi]:
             r = byk.get((gi, len(inputs[gi]) - 1, 0))
             if r: out['samples'].append({'grammar': g.text(), 'vtypes': g.vtypes, 'input': inputs[gi][-1].decode('latin-1'), 'log': r.events[:300], 'objs_alive': r.objs_alive, 'copies': r.copies})
